@@ -145,6 +145,7 @@ inductive Act
   | mutNoReact (e ty v : Nat)            -- `ReactiveMut::get_noreact`: write without triggering
   | resNoReact (ty v : Nat)              -- `ReactResMut::get_noreact`
   | flushWorld                           -- `world.flush()` called by an exclusive system in the middle of its body
+  | runNow (s : Nat)                     -- `SystemCommand::apply(world)` called in-line by an exclusive system (no flush first)
 deriving DecidableEq, Repr, Inhabited
 
 /-- Top-level operations performed by the harness between reaction trees (stack empty). -/
